@@ -49,6 +49,7 @@ def dispatch (st : St) (line : String) : St × String :=
     | ["wh", op] => (st, (WebhookD.step op args).getD "bad-op")
     | ["nc", op] => (st, (NetConfD.step op args).getD "bad-op")
     | ["cfg", op] => (st, (JsonD.step op args).getD "bad-op")
+    | ["cni", "gen"] => (st, (JsonD.genStep args).getD "bad-op")
     | ["cni", op] => (st, (JsonD.chainStep op args).getD "bad-op")
     | ["ip", op] => (st, (IpamD.step op args).getD "bad-op")
     | ["rt", op] =>
